@@ -3,7 +3,9 @@ package main
 // C15: generators and corpus.
 
 import (
+	"archive/tar"
 	"bytes"
+	"compress/gzip"
 	"fmt"
 	"math/rand"
 	"os"
@@ -255,7 +257,24 @@ func c15TgzOf(s *c15Chart) []byte {
 		return nil
 	}
 	b, _ := os.ReadFile(p)
-	return b
+	// Save stamps every entry with time.Now(); re-pack the same entries with a zero time so
+	// that a seed always generates the same bytes
+	ents, ok := c15ScanTgz(b)
+	if !ok {
+		return nil
+	}
+	var buf bytes.Buffer
+	zw, _ := gzip.NewWriterLevel(&buf, gzip.BestSpeed)
+	tw := tar.NewWriter(zw)
+	for _, e := range ents {
+		if err := tw.WriteHeader(&tar.Header{Name: e.Name, Mode: e.Mode, Size: int64(len(e.Data)), Typeflag: e.Type, Format: tar.FormatPAX}); err != nil {
+			return nil
+		}
+		tw.Write(e.Data)
+	}
+	tw.Close()
+	zw.Close()
+	return buf.Bytes()
 }
 
 func c15ChartYaml(r *rand.Rand, name string, hostile bool) []byte {
@@ -491,7 +510,6 @@ func (p *c15) Corpus() []any {
 	out = append(out, c15Case{Kind: "dir", Files: []c15File{{Name: "Chart.yaml", Data: []byte("apiVersion: v2\nname: thechart\nversion: one.two\n")}}})
 	out = append(out, c15Case{Kind: "dir", Files: []c15File{{Name: "Chart.yaml", Data: []byte("apiVersion: v2\nname: some/other\nversion: 0.1.0\n")}}})
 	out = append(out, c15Case{Kind: "dir", Files: []c15File{{Name: "Chart.yaml", Data: []byte("apiVersion: v2\nname: thechart\nversion: 0.1.0\ndependencies:\n- name: missing\n  version: 1.0.0\n  repository: https://x\n")}}})
-	_ = bytes.Equal
 	_ = filepath.Join
 	return out
 }
